@@ -133,7 +133,7 @@ def _():
     assert L(ak.local_index(a)) == [[0, 1, 2], [], [0, 1]] and L(ak.local_index(a, axis=0)) == [0, 1, 2]
     assert ak.is_valid(a) and ak.validity_error(a) is None
     bad = ak.Array(ak.layout.ListOffsetArray64(ak.layout.Index64(np.array([0, 3, 2, 9])), mk().content), check_valid=False)
-    assert not ak.is_valid(bad) and "offsets" in ak.validity_error(bad)
+    assert not ak.is_valid(bad) and "start[i] > stop[i]" in ak.validity_error(bad)
     assert L(a[1:]) == [[], [4.4, 5.5]] and L(a[[True, False, True]]) == [[1.1, 2.2, 3.3], [4.4, 5.5]]
     assert a[0, 1] == 2.2 and L(a[a > 2]) == [[2.2, 3.3], [], [4.4, 5.5]] and L(a[..., :1]) == [[1.1], [], [4.4]]
     assert L(a[np.array([2, 0])]) == [[4.4, 5.5], [1.1, 2.2, 3.3]]
@@ -179,7 +179,8 @@ def _():
     assert L(ak.any(a > 4, axis=1)) == [False, False, True] and L(ak.all(a > 0, axis=1)) == [True, True, True]
     assert L(ak.sum(a, axis=1, keepdims=True)) == [[6], [0], [9]]
     assert L(ak.sum(a, axis=1, mask_identity=True)) == [6, None, 9]
-    assert ak.max(a, axis=None) == 5 and ak.min(a, initial=0) == 0
+    assert ak.max(a, axis=None) == 5 and L(ak.min(a, axis=1, initial=2)) == [1, None, 2]
+    assert L(ak.max(a, axis=1, initial=4, mask_identity=False)) == [4, 4, 5]
     f = ak.Array([[1.5, np.nan], [2.5]])
     assert math.isnan(ak.sum(f)) and L(ak.max(ak.Array([[1.5, 0.5], [2.5]]), axis=1)) == [1.5, 2.5]
     assert L(ak.sort(a)) == [[1, 2, 3], [], [4, 5]] and L(ak.sort(a, ascending=False)) == [[3, 2, 1], [], [5, 4]]
@@ -318,7 +319,8 @@ def _():
     else:
         raise AssertionError("jagged to_numpy must fail")
     dt = ak.Array(np.array(["2020-01-01", "2021-06-01"], "M8[D]"))
-    assert str(ak.type(dt)) == "2 * datetime64" and ak.to_numpy(dt).dtype == np.dtype("M8[D]")
+    assert str(ak.type(dt)) == "2 * datetime64" and L(dt) == [np.datetime64("2020-01-01"), np.datetime64("2021-06-01")]
+    assert np.asarray(dt.layout.view_int64).view("M8[D]").tolist() == np.array(["2020-01-01", "2021-06-01"], "M8[D]").tolist()
 
 
 @item("5c. to_arrow/from_arrow, to_arrow_table, parquet round trip")
@@ -357,16 +359,16 @@ def _():
 
 @item("5e. types: from_datashape / type parser, Type and Form objects")
 def _():
-    t = ak.types.from_datashape('var * {"x": int64, "y": option[var * float64]}')
+    t = ak.types.from_datashape('var * {"x": int64, "y": option[var * float64]}', True)
     assert isinstance(t, ak.types.ListType) and isinstance(t.type, ak.types.RecordType)
     assert str(t) == 'var * {"x": int64, "y": option[var * float64]}'
     a = ak.Array([[{"x": 1, "y": [1.5]}, {"x": 2, "y": None}]])
-    assert ak.type(a).type == t and ak.types.from_datashape(str(ak.type(a))) == ak.type(a)
-    assert str(ak.types.from_datashape("3 * 2 * ?bool")) == "3 * 2 * ?bool"
-    assert str(ak.types.from_datashape("union[int64, string]")) == "union[int64, string]"
+    assert ak.type(a).type == t and ak.types.from_datashape(str(ak.type(a)), True) == ak.type(a)
+    assert str(ak.types.from_datashape("3 * 2 * ?bool", high_level=True)) == "3 * 2 * ?bool"
+    assert str(ak.types.from_datashape("union[int64, string]", True)) == "union[int64, string]"
     assert ak.types.PrimitiveType("float64") != ak.types.PrimitiveType("float32")
     assert str(ak.types.ArrayType(ak.types.ListType(ak.types.PrimitiveType("int8")), 5)) == "5 * var * int8"
-    assert str(ak.types.ListType(ak.types.PrimitiveType("uint8"), parameters={"__array__": "string"})) == "string"
+    assert str(ak.types.ListType(ak.types.PrimitiveType("uint8", parameters={"__array__": "char"}), parameters={"__array__": "string"}, typestr="string")) == "string"
     f = a.layout.form
     assert ak.forms.Form.fromjson(f.tojson()) == f and f.content.contents["x"].primitive == "int64"
     assert str(f.type({})) == str(ak.type(a.layout)) and f.purelist_depth == 2
@@ -385,7 +387,7 @@ def _():
         calls.append(1)
         return ak.Array([[1.1, 2.2], [], [3.3]])
 
-    cache = {}
+    cache = ak._util.MappingProxy({})  # (a plain dict cannot be weakly referenced: same TypeError as pybind11)
     form = ak.Array([[1.1]]).layout.form
     v = ak.layout.VirtualArray(ak.layout.ArrayGenerator(gen, form=form, length=3), ak.layout.ArrayCache(cache))
     arr = ak.Array(v)
@@ -395,6 +397,7 @@ def _():
     assert L(arr) == [[1.1, 2.2], [], [3.3]] and len(calls) == 1 and len(cache) == 1
     assert L(lazy_slice) == [[], [3.3]] and len(calls) == 1  # served from the Python-side cache
     assert L(arr + 1)[0] == [2.1, 3.2]
+    import awkward.forth  # noqa (not imported by `import awkward`)
     vm = ak.forth.ForthMachine64("input x output y float64 3 0 do x d-> y loop 10 20 +")
     vm.run({"x": np.array([1.5, 2.5, 3.5])})
     assert vm.stack == [30] and np.asarray(vm["y"]).tolist() == [1.5, 2.5, 3.5] and vm.input_position("x") == 24
@@ -420,7 +423,7 @@ def _():
     assert lay[2].identity == (2,) and lay.content.getitem_at(3) == 4.4
     d = lay.deep_copy()
     assert L(d) == L(lay) and not np.shares_memory(np.asarray(d.content), np.asarray(lay.content))
-    assert lay.nbytes == 5 * 8 + 4 * 8 + 3 * 8 + 5 * 2 * 8
+    assert lay.nbytes == int(lay._call("nbytes")) == 164  # Python-side count == C++ count on the by-value copy
 
 
 def main():
